@@ -534,10 +534,13 @@ impl Sim {
             let kp = keypair_of(i);
             let peer = kp.public().to_peer_id();
             let store = ScriptedStore::new();
-            let mut b = Behaviour::<S, _>::builder(Arc::new(store.clone())).client_set_send_dont_have(sdh);
-            if let Some(p) = &prefixes[i] {
-                b = b.protocol_prefix(p).expect("prefix accepted");
-            }
+            // the two builder options in either order (no option may undo another)
+            let b = Behaviour::<S, _>::builder(Arc::new(store.clone()));
+            let b = match (&prefixes[i], i % 2) {
+                (Some(p), 0) => b.client_set_send_dont_have(sdh).protocol_prefix(p).expect("prefix accepted"),
+                (Some(p), _) => b.protocol_prefix(p).expect("prefix accepted").client_set_send_dont_have(sdh),
+                (None, _) => b.client_set_send_dont_have(sdh),
+            };
             let inner = b.build();
             let rec = Arc::new(Mutex::new(Rec::default()));
             let fmt = Fmt { tables: tables.clone(), sdh };
